@@ -1244,9 +1244,11 @@ func (e *Engine) decodeMapToMap(ctx decCtx, n *Node, dst PtrV, u *types.Map) Ifa
 		m = MapV{obj: e.newMapObj()}
 		e.store(dst, m)
 	}
-	existing := len(m.obj.entries)
-	if existing > 0 {
-		e.unsupported("decode into non-empty map")
+	// a non-empty destination map is kept (the library decodes into it): entries present before may be
+	// overwritten once each without counting as duplicates (existingKeys in parseMapToMap)
+	overwritable := map[int]bool{}
+	for i := range m.obj.entries {
+		overwritable[i] = true
 	}
 	_, keyIsIface := u.Key().Underlying().(*types.Interface)
 	var first Iface
@@ -1280,8 +1282,13 @@ func (e *Engine) decodeMapToMap(ctx decCtx, n *Node, dst PtrV, u *types.Map) Ifa
 			continue
 		}
 		before := len(m.obj.entries)
+		at := e.mapFind(m.obj, key)
 		e.mapUpdate(m, key, vc.val)
 		if ctx.dupEnforced && len(m.obj.entries) == before {
+			if at >= 0 && overwritable[at] {
+				delete(overwritable, at)
+				continue
+			}
 			return e.mkErr("cbor: found duplicate map key")
 		}
 	}
